@@ -111,7 +111,8 @@ def _determine_default_value(data: Sequence[tuple[Any, dict[str, Any]]], prop_na
     """Determine default value to fill in missing values
 
     Find the first non-missing value and then uses the following heuristics:
-    - Native python numerical types (int, float) -> 0
+    - Native python numerical types (bool, int, float) -> zero of the same type
+      (False, 0, 0.0)
     - Native python string -> ""
     - Otherwise, return the  value, which is definitely the right type and
     shape, but is potentially both confusing and inefficient. Should reconsider in
@@ -133,7 +134,9 @@ def _determine_default_value(data: Sequence[tuple[Any, dict[str, Any]]], prop_na
         if prop_name in data_dict:
             value = data_dict[prop_name]
             if isinstance(value, int | float):
-                return 0
+                # a zero of the value's own type (False for bool, which is an int subclass),
+                # so that the fill does not change the dtype inferred for the present values
+                return type(value)(0)
             elif isinstance(value, str):
                 return ""
             else:
